@@ -13,6 +13,7 @@
 //	   (a cut after '.' or ':' is counted as outside_statement and the chunk is merged with the next one)
 //	O4 continuation: the last token of a non-final chunk is no binary operator, comma, opening bracket
 //	O5 keyword: ... and no keyword other than break/continue/fallthrough/return
+//	O6 no run-on: when the whole input parses, the reader does not end with io.ErrUnexpectedEOF
 //
 // Correspondence: cases_NNN.v hold input bytes, delivered line lengths, observed chunks (length, firstToken, error),
 // rewrite offsets and the go/scanner byte classification; Verif.C26.Model recomputes all of them.
@@ -501,6 +502,13 @@ func (e *env) check(kind, name, input string, allc, toCoq, wantParse bool) {
 				}
 				e.extra["O3_chunks_parsed"]++
 			}
+			// ---- O6: the whole input is a sequence of complete statements (it parses, go/scanner reports no error): its
+			// brackets are balanced, the reader must not end with "unexpected EOF" (= it still waits for a closing bracket)
+			if n := len(o.chunks); n > 0 && o.chunks[n-1].Err == "UnexpectedEOF" {
+				fail("O6 reader returns io.ErrUnexpectedEOF (open bracket at end of input) although the whole input parses: the last chunk runs on over complete statements",
+					map[string]interface{}{"chunks": n, "last_chunk_src": short(o.chunks[n-1].Src)}, nil)
+			}
+			e.extra["O6_checked"]++
 		} else {
 			e.extra["O3_skipped_whole_input_does_not_parse"]++
 		}
@@ -888,6 +896,9 @@ func main() {
 			}
 		}
 	}
+
+	// ---- (2c) escaped / quote-bearing literals followed on the same line by brackets and further literals (escapes.go)
+	e.runEscapes(a)
 
 	// ---- (3) standard library
 	goroot := ""
